@@ -20,6 +20,7 @@ def resp? : String → Option Resp
 def cert? : String → Option Cert
   | "own" => some .own | "otherRsa" => some .otherRsa | "wrongSize" => some .wrongSize
   | "unparsable" => some .unparsable | "empty" => some .empty | "nonRsa" => some .nonRsa
+  | "chainOwnOther" => some .chainOwnOther | "chainOtherOwn" => some .chainOtherOwn
   | _ => none
 def sigKey? : String → Option SigKey
   | "own" => some .own | "other" => some .other | _ => none
